@@ -396,7 +396,7 @@ theorem reconcile_writes_selected (o : Oracle) (upg down : Bool) (lock : List Pk
 
 /-! ### Resolve: "dependencies satisfied" is sound -/
 
-/-- PackageDependencyManager.Resolve (as repaired by fixes/D12.diff) returns no error for an
+/-- PackageDependencyManager.Resolve (as repaired by fixes/D21.diff) returns no error for an
 active revision `self` only if, in the lock it leaves behind,
 * the revision is recorded with its declared dependencies,
 * every direct dependency is a lock package whose version is the pinned digest, resp. a
@@ -411,7 +411,7 @@ theorem satisfied_sound (o : Oracle) (upg : Bool) (lock : List Pkg) (self : Pkg)
       m ∈ (resolve o upg lock self).lock.map (·.source)) :=
   resolve_sound o upg lock self wf h
 
-/-- D12 witness: before the repair, a revision moved to another repository that depends on its
+/-- D21 witness: before the repair, a revision moved to another repository that depends on its
 old location was reported satisfied although the old entry had just been removed from the
 lock (the DAG was still the one built before the removal). `resolveG false` is the model of
 the unrepaired code; the same input is in corpus/C17. -/
